@@ -178,6 +178,27 @@ func (r *Run) Outcome(name string) {
 	r.mu.Unlock()
 }
 
+// OutcomeCount returns how often an outcome was recorded.
+func (r *Run) OutcomeCount(name string) int {
+	r.mu.Lock()
+	defer r.mu.Unlock()
+	return int(r.outcomes[name])
+}
+
+// Reached is the vacuity guard of a check: the named outcomes stand for the situations its alphabet is meant to
+// produce; if one of them was never recorded in a complete run the exploration did not reach what it claims to
+// cover, which is a defect of the harness (exit 2), never a pass.
+func (r *Run) Reached(names ...string) {
+	if r.Replaying || len(r.incomplete) > 0 {
+		return
+	}
+	for _, n := range names {
+		if r.OutcomeCount(n) == 0 {
+			r.HarnessError("vacuity guard: outcome %q was never reached", n)
+		}
+	}
+}
+
 func (r *Run) Sample(s interface{}) {
 	r.mu.Lock()
 	if len(r.samples) < 12 {
